@@ -38,6 +38,7 @@ def transpose(scn, rec, cfg):
     scn_t = copy.deepcopy(scn)
     scn_t["dims"] = [copy.deepcopy(d2), copy.deepcopy(d1)]
     rec_t = {"flat": {k: _permute(v, d1, d2) for k, v in rec["flat"].items()}}
+    rec_t["hdr"] = rec["hdr"]       # the header does not depend on the order of the dimensions
     if isinstance(rec.get("flaty"), dict) and "mean" in rec["flaty"]:
         rec_t["flaty"] = {k: _permute(v, d1, d2) for k, v in rec["flaty"].items()}
     cfg_t = {"rows": copy.deepcopy(cfg["cols"]), "cols": copy.deepcopy(cfg["rows"])}
